@@ -1479,6 +1479,17 @@ class Engine:
     def op_makeslice(self, st, fr, ins):
         ln = self.val(st, fr, ins["len"])
         cp = self.val(st, fr, ins["cap"])
+        if is_sym(cp) and not is_sym(ln):
+            # symbolic capacity: it only matters for aliasing after append (the encoder reallocates on append beyond cap);
+            # a capacity below the length (as a signed int) panics in Go
+            bad = (cp < ln) if is_arith(cp) else (cp < z3.BitVecVal(ln, cp.size()))
+            if self.feasible(st, bad):
+                if self.feasible(st, z3.Not(bad)):
+                    def pan(s):
+                        raise GoPanic("makeslice: cap out of range")
+                    raise Fork([(bad, pan), (z3.Not(bad), lambda s: None)])
+                raise GoPanic("makeslice: cap out of range")
+            cp = ln
         if is_sym(ln) or is_sym(cp):
             raise Unsupported("make([]T, symbolic)")
         if ln < 0 or cp < ln:
